@@ -48,6 +48,17 @@ def run(ctx):
         if any(k.startswith("chunk") for k in (o if isinstance(o, dict) else {})) or "chunk" in json.dumps(o):
             for b in (2, 3):
                 cases.append({"kind": "config", "id": "chg-%d-b%d" % (i, b), "phase": "change", "base": b, "opts": o})
+    # a refused change followed by an accepted one through the same handle: the refused one must leave nothing behind
+    refused = [{"compression": "1", "version": "1"}, {"chunker": "fixed_size", "chunk_size": "4096", "compression": "23"},
+               {"datapack_size": "65536", "min_packsize_tolerate_percent": "101"}, {"append_only": "true", "version": "0"},
+               {"extra_verify": "false", "chunker": "rabin", "chunk_size": "100"}, {"treepack_growfactor": "32", "max_packsize_tolerate_percent": "1"},
+               {"compression": "19", "chunk_min_size": "63", "chunker": "rabin"}]
+    accepted = [{"extra_verify": "false"}, {"treepack_growfactor": "1"}, {"compression": "1"}, {"append_only": "false"}, {"datapack_size": "4096"}]
+    for i, f in enumerate(refused):
+        for j, o in enumerate(accepted):
+            if q and (i + j) % 2:
+                continue
+            cases.append({"kind": "config", "id": "seq-%d-%d" % (i, j), "phase": "change", "base": (i + j) % 2, "opts_first": f, "opts": o})
     pl = []
     for mu in LIMITS:
         for mr in (LIMITS if not q else ["0%", "100%", "101%", "unlimited", "1"]):
